@@ -138,7 +138,7 @@ func runLex(t *vlib.T) {
 					}
 				}
 				lexCase(t, "fs", join(p, " "))
-				if n >= 2 && n <= 3 {
+				if n >= 2 {
 					lexCase(t, "fu", join(p, ""))
 				}
 			})
